@@ -45,9 +45,23 @@ var (
 		Code:    dns.ExtendedErrorCodeDNSBogus,
 		Message: "Parent has DS records but zone appears unsigned",
 	}
+	// RFC 4035 §4.3: with no trust anchor the security status is
+	// Indeterminate, which has an extended error of its own.
 	ErrTrustAnchorsUnavailable = &dnsutil.EDEError{
-		Code:    dns.ExtendedErrorCodeOther,
+		Code:    dns.ExtendedErrorCodeDNSSECIndeterminate,
 		Message: "Trust anchors unavailable — refusing to validate",
+	}
+	ErrNoDSOrDenial = &dnsutil.EDEError{
+		Code:    dns.ExtendedErrorCodeDNSBogus,
+		Message: "DS or NSEC records not found",
+	}
+	ErrEmptyDSSet = &dnsutil.EDEError{
+		Code:    dns.ExtendedErrorCodeDNSBogus,
+		Message: "DS RR set empty",
+	}
+	ErrRootKeysNotVerified = &dnsutil.EDEError{
+		Code:    dns.ExtendedErrorCodeDNSBogus,
+		Message: "root zone keys not verified",
 	}
 )
 
